@@ -128,7 +128,7 @@ func (n *node) makeBlock(tag string, valid bool) []byte {
 
 func (n *node) makeResults(ds []*lib.DoubleSigner) *lib.CertificateResult {
 	return &lib.CertificateResult{
-		RewardRecipients: &lib.RewardRecipients{PaymentPercents: []*lib.PaymentPercents{{Address: bytes.Repeat([]byte{7}, 20), Percent: 100, ChainId: 1}}},
+		RewardRecipients: &lib.RewardRecipients{PaymentPercents: []*lib.PaymentPercents{{Address: n.addr, Percent: 100, ChainId: 1}}},
 		SlashRecipients:  &lib.SlashRecipients{DoubleSigners: ds},
 	}
 }
